@@ -37,6 +37,22 @@ theorem clock_per_call (calls : List (World × RegCred × RegExpect)) :
     calls.map (fun (W, c, e) => runM W (verifyReg c e)) =
       calls.map (fun x => runM x.1 (verifyReg x.2.1 x.2.2)) := rfl
 
+/-- only an integer timestamp can be inside the window: a `timestampMs` that is a float (NaN and the infinities included),
+a string, null or absent-and-defaulted-to-something-else never gets as far as the comparison (the regenerated type guard of
+`verify_safetynet_timestamp`; without it NaN compared false against both bounds and was accepted at any clock — finding F12) -/
+theorem timestamp_must_be_integer {v : JVal} {ts : Int} (h : snetTimestamp v = .ok ts) :
+    (∃ i, v = .int i ∧ ts = i) ∨ (∃ b, v = .bool b ∧ ts = if b then 1 else 0) := by
+  have hg : safetynetTimestampRequiresInt = true := by decide
+  unfold snetTimestamp at h
+  cases v with
+  | int i => exact .inl ⟨i, rfl, (Except.ok.inj h).symm⟩
+  | bool b => exact .inr ⟨b, rfl, (Except.ok.inj h).symm⟩
+  | real r => simp [hg] at h
+  | null => simp [hg] at h
+  | str s => simp [hg] at h
+  | arr xs => simp [hg] at h
+  | obj kvs => simp [hg] at h
+
 example : safetynetTimestampRejects 1000000 1000 = false ∧ safetynetTimestampRejects 1010001 1000 = true ∧
     safetynetTimestampRejects 989999 1000 = true := by decide
 
